@@ -88,7 +88,7 @@ Lemma process_attribute_spec : forall text r qn eq prefix local value c c',
   process_attribute text r qn eq prefix local value c = Ok c' ->
   exists v c1, normalize_attribute text value c = Ok (v, c1) /\
   d_attrs (c_doc c') = d_attrs (c_doc c) /\ d_nodes (c_doc c') = d_nodes (c_doc c) /\
-  (if bytes_eqb (slice_bytes text prefix) xmlns_str || bytes_eqb (slice_bytes text local) xmlns_str
+  (if bytes_eqb (slice_bytes text prefix) xmlns_str || ((slice_len prefix =? 0) && bytes_eqb (slice_bytes text local) xmlns_str)
    then c_cur_attrs c' = c_cur_attrs c
    else c_cur_attrs c' = c_cur_attrs c ++
           [{| ta_prefix := prefix; ta_local := local; ta_value := v; ta_range := r;
@@ -116,7 +116,7 @@ Proof.
     + apply bind_ok in H. destruct H as [d [Hp H]]. inversion H; subst.
       apply push_ns_frame in Hp. cbn [c_doc c_cur_attrs set_doc]. tauto.
     + inversion H; subst; auto.
-  - destruct (bytes_eqb (slice_bytes text local) xmlns_str).
+  - destruct ((slice_len prefix =? 0) && bytes_eqb (slice_bytes text local) xmlns_str).
     + destruct (bytes_eqb (storage_bytes text v) ns_xml_uri);
         [exfalso; eapply err_from_not_ok; eassumption|].
       destruct (bytes_eqb (storage_bytes text v) ns_xmlns_uri);
@@ -131,7 +131,7 @@ Qed.
 Theorem process_attribute_classifies : forall text r qn eq prefix local value c c',
   process_attribute text r qn eq prefix local value c = Ok c' ->
   d_attrs (c_doc c') = d_attrs (c_doc c) /\ d_nodes (c_doc c') = d_nodes (c_doc c) /\
-  (if bytes_eqb (slice_bytes text prefix) xmlns_str || bytes_eqb (slice_bytes text local) xmlns_str
+  (if bytes_eqb (slice_bytes text prefix) xmlns_str || ((slice_len prefix =? 0) && bytes_eqb (slice_bytes text local) xmlns_str)
    then c_cur_attrs c' = c_cur_attrs c
    else exists v, c_cur_attrs c' = c_cur_attrs c ++
           [{| ta_prefix := prefix; ta_local := local; ta_value := v; ta_range := r;
@@ -140,7 +140,7 @@ Proof.
   intros text r qn eq prefix local value c c' H.
   apply process_attribute_spec in H. destruct H as [v [c1 [_ [H1 [H2 H3]]]]].
   repeat split; auto.
-  destruct (bytes_eqb (slice_bytes text prefix) xmlns_str || bytes_eqb (slice_bytes text local) xmlns_str);
+  destruct (bytes_eqb (slice_bytes text prefix) xmlns_str || ((slice_len prefix =? 0) && bytes_eqb (slice_bytes text local) xmlns_str));
     eauto.
 Qed.
 Print Assumptions process_attribute_classifies.
